@@ -679,8 +679,24 @@ pub fn gen_pinned_degenerate(rng: &mut Rng) -> System {
         let ids: Vec<u32> = (0..ni).map(|_| rng.below(nv) as u32).collect();
         let params: Vec<f64> = (0..np).map(|_| param(rng, shape, scale)).collect();
         let c = build(shape, &ids, &params);
-        let (r, deg) = kcl_ezpz::verif_hooks::residual(&c, &xs);
-        let (_, jdeg) = kcl_ezpz::verif_hooks::jacobian_rows(&c, &xs);
+        // the real kernels are asked whether the request is quiet / degenerate at `xs`; should they
+        // panic on this (finite, in-range) input, that is a failing input of the real code in its own
+        // right: it is printed as a VIOLATION line and the request is left out
+        let evald = std::panic::catch_unwind(std::panic::AssertUnwindSafe(|| {
+            (kcl_ezpz::verif_hooks::residual(&c, &xs), kcl_ezpz::verif_hooks::jacobian_rows(&c, &xs))
+        }));
+        let Ok(((r, deg), (_, jdeg))) = evald else {
+            static REPORTS: std::sync::atomic::AtomicUsize = std::sync::atomic::AtomicUsize::new(0);
+            if REPORTS.fetch_add(1, std::sync::atomic::Ordering::Relaxed) >= 3 {
+                continue;
+            }
+            println!(
+                "VIOLATION {{\"property\": \"C06\", \"kind\": \"impl-violates-oracle\", \"what\": \"evaluating the error measure / derivative of one request at a finite configuration with in-range ids panics\", \"signature\": \"kernel-evaluation-panics\", \"system\": null, \"extra\": \"{} at {:?}\"}}",
+                crate::codec::enc_constraint(&c),
+                xs
+            );
+            continue;
+        };
         let quiet = r.iter().all(|v| v.abs() < 1e-9);
         if (deg || jdeg) && quiet || (quiet && rng.chance(1, 3)) {
             cons.push(c);
